@@ -29,7 +29,21 @@ if __name__ == '__main__':
     root = tempfile.mkdtemp(prefix='verif-run-')
     os.environ['VERIF_TMP_ROOT'] = root
     try:
-        rc = main()
+        try:
+            rc = main()
+        except Exception as e:
+            # an exception from inside the audited code that escaped a check's own handling: report it in the interface's terms
+            from mc import par, evidence
+            site = par.tool_site(e)
+            if site is None:
+                raise
+            import traceback
+            pid = sys.argv[1].upper()
+            path = evidence.write_replay(pid, {'sig': 'tool-raised:%s:%s' % (type(e).__name__, site),
+                                               'detail': {'exception': '%s: %s' % (type(e).__name__, e), 'traceback_tail': traceback.format_exc()[-1500:]}, 'replay': None})
+            print('VIOLATION property=%s replay=%s' % (pid, path))
+            print('  signature: tool-raised:%s:%s (the audited code raised while a check called it directly)' % (type(e).__name__, site))
+            rc = 1
     finally:
         shutil.rmtree(root, ignore_errors=True)
     sys.stdout.flush()
